@@ -65,6 +65,7 @@ class Contract:
     serves: list = field(default_factory=list)
     abstract: bool = False        # interface contract without a body to verify (e.g. builder callbacks)
     pure: bool = False
+    dict_hint: str = ""          # record type to prefer when a dict literal's keys fit several record types
     result_is: Any = None         # lambda over the arguments: the result is exactly this spec expression (functional contract)
     bounded_only: str = ""     # non-empty: the proof is not attempted; reason; only the bounded stand-in runs
     file: str = ""
@@ -116,6 +117,7 @@ class Registry:
         self._struct: dict = {}
         self._rec_by_node: dict = {}
         self._optional_overrides: dict = {}
+        self._pending_records: list = []
 
     def _td_lookup(self, name: str, module: str | None):
         """Resolve a TypedDict name in the context of a module: own definition, imported one, or unique."""
@@ -140,6 +142,11 @@ class Registry:
         return defs[0]
 
     def record(self, name: str, module: str | None = None) -> TRec | None:
+        for rn, kw in list(self._pending_records):
+            if rn == name and rn not in self.records:
+                opt = {x.value for x in kw["optional"].elts} if "optional" in kw else set()
+                flds = [(k.arg, self.value_type(self.parse_type(k.value)), k.arg in opt) for k in kw["fields"].keywords]
+                self.records[rn] = TRec(rn, flds)
         if name in self.records and "." not in name and len(self.prog.typed_dict_defs.get(name, [])) <= 1:
             return self.records[name]
         if name == "Envelope":
@@ -320,6 +327,9 @@ class Registry:
         uniq = {c.name: c for c in cands}
         if len(uniq) == 1:
             return list(uniq.values())[0]
+        hint = getattr(self, "dict_hint", None)
+        if hint and hint in uniq:
+            return uniq[hint]
         # prefer exact key match
         exact = [c for c in uniq.values() if {k for k, _, _ in c.fields} == keys]
         if len(exact) == 1:
@@ -383,6 +393,9 @@ class Registry:
                         self._parse_contract(call, path)
                 elif fn == "klass":
                     self._parse_klass(node.value)
+                elif fn == "record":
+                    kw = self._kw(node.value)
+                    self._pending_records.append((node.value.args[0].value, kw))
                 elif fn == "record_override":
                     kw = self._kw(node.value)
                     self._optional_overrides.setdefault(node.value.args[0].value, set()).update(
@@ -465,6 +478,7 @@ class Registry:
                      variants=variants, serves=serves, abstract=flag("abstract"), pure=flag("pure"), file=path,
                      bounded_only=kw["bounded_only"].value if "bounded_only" in kw else "",
                      result_is=kw.get("result_is"),
+                     dict_hint=kw["dict_hint"].value if "dict_hint" in kw else "",
                      notes=kw["notes"].value if "notes" in kw else "")
         self.contracts[qual] = c
 
@@ -1569,7 +1583,6 @@ class Registry:
         x = fresh(INT if el == "char" else el.sort(), "cx")
         elem = VStr(z3.Unit(x)) if el == "char" else from_term(x, el)
         s = st.clone()
-        heap_before = dict(s.heap)
         nobl = len(ex.obligations)
         bound = {n.id for n in ast.walk(target) if isinstance(n, ast.Name)}
         if index_name:
@@ -1597,16 +1610,50 @@ class Registry:
         if index_name is not None:
             jv = fresh(INT, "cj")
             s.env[index_name] = VInt(jv)
+        # id counters: an element that draws exactly one id per evaluation is a map with index (ids c0 + j)
+        counters = []          # (loc, placeholder, original term)
+        for loc, c in list(s.heap.items()):
+            if isinstance(c, ObjCell) and isinstance(c.fields.get("_id_counter"), VInt):
+                ph = fresh(INT, "cnt")
+                counters.append((loc, ph, c.fields["_id_counter"].t))
+                f2 = dict(c.fields)
+                f2["_id_counter"] = VInt(ph)
+                s.heap[loc] = ObjCell(c.cls, f2, c.owner, c.view)
+        heap_before = dict(s.heap)
         res = ex.eval(s, elt_expr)
         if len(res) != 1 or isinstance(res[0][1], Raised):
             raise EngineUnsupported("comprehension element forks or raises")
         s2, v = res[0]
+        drawn = []
         for loc, c in heap_before.items():
-            if s2.heap.get(loc) is not c:
+            c2 = s2.heap.get(loc)
+            if c2 is c:
+                continue
+            cnt = next((x for x in counters if x[0] == loc), None)
+            if cnt is None or not isinstance(c2, ObjCell) or any(
+                    c2.fields.get(k) is not c.fields.get(k) for k in set(c.fields) | set(c2.fields) if k != "_id_counter"):
                 raise EngineUnsupported("comprehension element has side effects")
+            if not z3.is_true(z3.simplify(c2.fields["_id_counter"].t == cnt[1] + 1)):
+                raise EngineUnsupported("comprehension element changes an id counter by other than one")
+            drawn.append(cnt)
         v = ex.freeze(s2, v)
         rty = ty_of_val(v)
         body = to_term(v, rty)
+        if drawn and jv is None:
+            jv = fresh(INT, "cj")
+        for loc, ph, orig in drawn:
+            p0 = fresh(INT, "p_cnt")
+            body = z3.substitute(body, (ph, p0 + jv))
+            params.append((p0, orig))
+        for loc, ph, orig in counters:
+            if not any(d[0] == loc for d in drawn):
+                body = z3.substitute(body, (ph, orig))
+            # the real heap: counter advanced by the number of elements (or unchanged)
+            c = st.heap[loc]
+            if any(d[0] == loc for d in drawn):
+                f2 = dict(c.fields)
+                f2["_id_counter"] = VInt(orig + z3.Length(seq))
+                st.heap[loc] = ObjCell(c.cls, f2, c.owner, c.view)
         for ob in ex.obligations[nobl:]:
             ob.extra["bound"] = str(x)
             # obligations raised inside the element mention the placeholders: restate them over the actual values
@@ -1639,8 +1686,36 @@ class Registry:
         return VSeq(rty, mt)
 
     def eval_dictcomp(self, ex, st, e):
-        # only the reject_nones shape: {k: v for k, v in values.items() if v is not None}
-        raise EngineUnsupported("dict comprehension (use the contract of reject_nones)")
+        """the reject_nones shape only: {k: v for k, v in d.items() if v is not None} over a dict with constant keys"""
+        g = e.generators[0] if len(e.generators) == 1 else None
+        ok = (g is not None and isinstance(g.target, ast.Tuple) and len(g.target.elts) == 2
+              and isinstance(e.key, ast.Name) and isinstance(e.value, ast.Name)
+              and e.key.id == g.target.elts[0].id and e.value.id == g.target.elts[1].id
+              and isinstance(g.iter, ast.Call) and isinstance(g.iter.func, ast.Attribute) and g.iter.func.attr == "items"
+              and len(g.ifs) == 1 and isinstance(g.ifs[0], ast.Compare) and isinstance(g.ifs[0].ops[0], ast.IsNot)
+              and isinstance(g.ifs[0].left, ast.Name) and g.ifs[0].left.id == e.value.id
+              and isinstance(g.ifs[0].comparators[0], ast.Constant) and g.ifs[0].comparators[0].value is None)
+        if not ok:
+            raise EngineUnsupported("dict comprehension other than {k: v for k, v in d.items() if v is not None}")
+
+        def k(s, d):
+            if not (isinstance(d, VRef) and isinstance(s.cell(d), DictCell)):
+                raise EngineUnsupported("dict comprehension over a non-literal dict")
+            c = s.cell(d)
+            items, present = {}, {}
+            for key, v in c.items.items():
+                p0 = c.present.get(key, True)
+                if v is VNone:
+                    continue
+                if isinstance(v, VOpt):
+                    items[key] = from_term(v.ty.val(v.t), v.ty.elem)
+                    nn = z3.Not(v.ty.is_none(v.t))
+                    present[key] = nn if p0 is True else z3.And(p0, nn)
+                else:
+                    items[key] = v
+                    present[key] = p0
+            return [(s, s.alloc(DictCell(items, present, None)))]
+        return ex.bind(ex.eval(st, g.iter.func.value), k)
 
     def exists_pred(self, ex, st, el, seq, target, elt_expr, x: Val):
         """x in (f(e) for e in seq): encoded as Contains(Map_f(seq), [x])."""
@@ -1751,7 +1826,7 @@ BUILTIN_NAMES = {"len", "str", "list", "next", "iter", "enumerate", "map", "filt
 
 SPEC_BUILTINS = {"implies", "iff", "lstrip", "rstrip", "strip", "lead_ws", "trail_ws", "lead_blank", "trail_blank",
                  "itos", "seq_empty", "iter_pos", "is_space", "all_space", "ite", "length", "strip_crlf",
-                 "replace_all", "join_lf", "is_none", "opt_val", "some", "none_of", "typed", "rec_has",
+                 "replace_all", "join_lf", "join_lf_opt", "is_none", "opt_val", "some", "none_of", "typed", "rec_has",
                  "strip_blank", "startswith", "endswith", "split_head", "first_index", "char_at", "contains_ws",
                  "split_off", "split_on", "first_ws_hash", "typed_is_str", "re_matches", "re_group1"}
 
